@@ -34,8 +34,10 @@ Definition entries_for_config_checked (nh nb : N) : outcome N :=
 Definition cm_make (nh nb mx sh entries : N) : cm :=
   mkCm nh nb mx sh 0 (repeat 0 (N.to_nat entries)).
 
+(* with_seed: entries_for_config, then make() calls compute_seed_hash(seed), which asserts that the
+   seed hash is not zero (documented: "Panics if ... the computed seed hash is zero") *)
 Definition cm_new (nh nb mx sh : N) : outcome cm :=
-  obind (entries_for_config nh nb) (fun e => Ok (cm_make nh nb mx sh e)).
+  obind (entries_for_config nh nb) (fun e => if sh =? 0 then Stuck else Ok (cm_make nh nb mx sh e)).
 
 (* T::add with overflow checks (debug profile): Stuck when the sum leaves the type *)
 Definition tadd (mx a b : N) : outcome N :=
@@ -104,6 +106,12 @@ Definition cm_halve (s : cm) : cm :=
    the executable instance is in Corr/CountMin.v *)
 Definition cm_scale (g : N -> N) (s : cm) : cm :=
   mkCm (cm_nh s) (cm_nb s) (cm_max s) (cm_seed_hash s) (g (cm_total s)) (map g (cm_counts s)).
+
+(* decay(d) as repaired (/repo "fix: countmin decay could increase large counters"):
+   c -> min(trunc(c as f64 * d) as T, c).  [f] is the float part c -> trunc(c as f64 * d) as T (executable
+   instance in Corr/CountMin.v); the clamp is the crate's `.min(self)`. *)
+Definition decay_clamp (f : N -> N) (c : N) : N := N.min (f c) c.
+Definition cm_decay (f : N -> N) (s : cm) : cm := cm_scale (decay_clamp f) s.
 
 Definition cm_is_empty (s : cm) : bool := cm_total s =? 0.
 
